@@ -650,3 +650,47 @@ func MatchingPattern(rng *rand.Rand, d []*triple.Triple, clauses int) []bq.Claus
 	}
 	return cs
 }
+
+// AddBoundAlias appends a clause whose predicate is a bound with binding limits
+// ("id"@[?lo,?hi], either side may be empty) taking its limits from time
+// bindings an earlier clause introduces ("id"@[?t], AT ?t, anchors of reified
+// predicate objects). It returns the pattern unchanged when no clause binds a
+// time. The new clause shares a node binding with the pattern when it can.
+func AddBoundAlias(rng *rand.Rand, cs []bq.Clause) ([]bq.Clause, bool) {
+	kinds := bindingKinds(cs)
+	times := bindingsOf(kinds, "time")
+	if len(times) == 0 {
+		// no clause binds a time: add a binder (a temporal predicate, or the
+		// anchor of a reified predicate object, which global bounds do not touch)
+		b := bq.Clause{S: bq.B("?sb"), P: bq.PB([]string{"p", "q"}[rng.Intn(2)], "?tb"), O: bq.B("?ob")}
+		if rng.Intn(2) == 0 {
+			b = bq.Clause{S: bq.B("?sb"), P: bq.B("?pb"), O: bq.PB("p", "?tb")}
+		}
+		if nodes := bindingsOf(kinds, "node"); len(nodes) > 0 && rng.Intn(2) == 0 {
+			b.S = bq.B(nodes[rng.Intn(len(nodes))])
+		}
+		cs = append(append([]bq.Clause{}, cs...), b)
+		kinds = bindingKinds(cs)
+		times = bindingsOf(kinds, "time")
+	}
+	nodes := bindingsOf(kinds, "node")
+	sfx := fmt.Sprint(len(cs) + 1)
+	c := bq.Clause{S: bq.B("?s" + sfx), O: bq.B("?o" + sfx)}
+	if len(nodes) > 0 && rng.Intn(3) != 0 {
+		c.S = bq.B(nodes[rng.Intn(len(nodes))])
+	} else if rng.Intn(3) == 0 {
+		c.S = bq.N(VNodes[rng.Intn(3)])
+	}
+	lo, hi := times[rng.Intn(len(times))], times[rng.Intn(len(times))]
+	switch rng.Intn(3) {
+	case 0:
+		lo = ""
+	case 1:
+		hi = ""
+	}
+	c.P = bq.PBdB([]string{"p", "q"}[rng.Intn(2)], lo, hi)
+	if rng.Intn(2) == 0 {
+		c.PAt = "?pat" + sfx
+	}
+	return append(append([]bq.Clause{}, cs...), c), true
+}
